@@ -6,7 +6,7 @@ Import ListNotations.
 
 Lemma matched_visits t h o fo g : forall x, matched t h g x o fo = true -> visits t h g x o fo = true.
 Proof.
-  induction g as [fs n e cs IH] using graph_ind'. intros x. cbn [matched visits]. rewrite Forall_forall in IH.
+  induction g as [fs n e p cs IH] using graph_ind'. intros x. cbn [matched visits]. rewrite Forall_forall in IH.
   intros A. apply existsb_exists in A. destruct A as [f [Hf A]]. apply andb_true_iff in A. destruct A as [Tf A].
   apply existsb_exists. exists f. split; [exact Hf|]. rewrite Tf. cbn [andb].
   apply orb_true_iff in A. apply orb_true_iff. destruct A as [A|A].
@@ -19,8 +19,8 @@ Qed.
 (* on a ranked heap (a DAG, in particular a tree) whose rank also dominates the new content of
    the slot, the change is edge-acyclic for every set of registrations *)
 (* ---------- '.' reports, ':' is silent ---------- *)
-Lemma matched_root_slot t rank h f n e cs r f0 :
-  ranked rank h -> t r f = true -> matched t h (G [f] n e cs) r r f0 = n && Nat.eqb f f0.
+Lemma matched_root_slot t rank h f n e p cs r f0 :
+  ranked rank h -> t r f = true -> matched t h (G [f] n e p cs) r r f0 = n && Nat.eqb f f0.
 Proof.
   intros R Tf. cbn [matched existsb]. rewrite Tf, orb_false_r. cbn [andb].
   assert (existsb (fun y => existsb (fun c => matched t h c y r f0) cs) (h r f) = false) as E.
@@ -30,8 +30,8 @@ Proof.
   rewrite E, orb_false_r. unfold slot_eqb. rewrite Nat.eqb_refl. reflexivity.
 Qed.
 
-Lemma link_root_slot t rank h f n cs r f0 :
-  ranked rank h -> t r f = true -> matched t h (link f n cs) r r f0 = n && Nat.eqb f f0.
+Lemma link_root_slot t rank h f n p cs r f0 :
+  ranked rank h -> t r f = true -> matched t h (link f n p cs) r r f0 = n && Nat.eqb f f0.
 Proof.
   intros R Tf. unfold link. destruct (is_container f); apply (matched_root_slot t rank); assumption.
 Qed.
@@ -39,9 +39,9 @@ Qed.
 Lemma existsb_map {A B} (p : B -> bool) (g : A -> B) l : existsb p (map g l) = existsb (fun a => p (g a)) l.
 Proof. induction l; cbn; [reflexivity|]. rewrite IHl. reflexivity. Qed.
 
-Lemma dot_colon_lemma t rank h names s rest gs r f :
+Lemma dot_colon_lemma t rank h names s p rest gs r f :
   ranked rank h -> (forall f', In f' names -> t r f' = true) -> rest <> [] -> In f names ->
-  legacy_to_graph ((names, s) :: rest) = Some gs ->
+  legacy_to_graph ((names, s, p) :: rest) = Some gs ->
   existsb (fun g => matched t h g r r f) gs = sep_notify s.
 Proof.
   intros R Tn NE I L. cbn [legacy_to_graph] in L. destruct rest as [|it rest]; [congruence|].
@@ -83,7 +83,7 @@ Qed.
 
 Lemma hooks_reach t h k g : forall x z fz kd, In (z, fz, kd) (expected t h k g x) -> reach h x z.
 Proof.
-  induction g as [fs n e cs IH] using graph_ind'. intros x z fz kd I. rewrite Forall_forall in IH.
+  induction g as [fs n e p cs IH] using graph_ind'. intros x z fz kd I. rewrite Forall_forall in IH.
   cbn [expected] in I. apply in_app_or in I. destruct I as [I|I].
   - destruct e; [|destruct I]. destruct I as [E|[]]. inversion E. apply reach_refl.
   - apply in_flat_map in I. destruct I as [f [Hf I]]. destruct (t x f); [|destruct I].
@@ -97,9 +97,9 @@ Qed.
 
 (* where the hooks of a single-trait node applied to x live: on x itself (slot (x, f) or the
    trait_added maintainer), or strictly below slot (x, f) *)
-Lemma region t h k f n e cs : forall x z fz kd,
-  In (z, fz, kd) (expected t h k (G [f] n e cs) x) ->
-  (z = x /\ (fz = f \/ (fz = TA /\ kd = KAdded k (G [f] n e cs)))) \/ (exists y, In y (h x f) /\ reach h y z).
+Lemma region t h k f n e p cs : forall x z fz kd,
+  In (z, fz, kd) (expected t h k (G [f] n e p cs) x) ->
+  (z = x /\ (fz = f \/ (fz = TA /\ kd = KAdded k (G [f] n e p cs)))) \/ (exists y, In y (h x f) /\ reach h y z).
 Proof.
   intros x z fz kd I. cbn [expected flat_map] in I. rewrite app_nil_r in I. apply in_app_or in I. destruct I as [I|I].
   - left. destruct e; [|destruct I]. destruct I as [E|[]]. inversion E. split; [reflexivity|]. right. split; reflexivity.
@@ -154,8 +154,8 @@ Qed.
 
 Fixpoint all_distinct (cs : list graph) : Prop :=
   match cs with [] => True | c :: l => distinct_fields c /\ all_distinct l end.
-Lemma distinct_fields_unfold fs n e cs :
-  distinct_fields (G fs n e cs) <-> (exists f, fs = [f]) /\ NoDup (map gfield cs) /\ all_distinct cs.
+Lemma distinct_fields_unfold fs n e p cs :
+  distinct_fields (G fs n e p cs) <-> (exists f, fs = [f]) /\ NoDup (map gfield cs) /\ all_distinct cs.
 Proof.
   cbn [distinct_fields].
   assert ((fix all (l : list graph) : Prop := match l with [] => True | c :: l' => distinct_fields c /\ all l' end) cs
@@ -164,10 +164,10 @@ Proof.
 Qed.
 Lemma all_distinct_In cs c : all_distinct cs -> In c cs -> distinct_fields c.
 Proof. induction cs; cbn; [tauto|]. intros [A B] [->|I]; auto. Qed.
-Lemma distinct_single g : distinct_fields g -> exists f n e cs, g = G [f] n e cs.
+Lemma distinct_single g : distinct_fields g -> exists f n e p cs, g = G [f] n e p cs.
 Proof.
-  destruct g as [fs n e cs]. intros D. apply (proj1 (distinct_fields_unfold fs n e cs)) in D.
-  destruct D as [[f ->] _]. eauto.
+  destruct g as [fs n e p cs]. intros D. apply (proj1 (distinct_fields_unfold fs n e p cs)) in D.
+  destruct D as [[f ->] _]. exists f, n, e, p, cs. reflexivity.
 Qed.
 
 Section Tree.
@@ -181,10 +181,10 @@ Section Tree.
     In hk (expected t h k c1 y) -> In hk (expected t h k c2 y) -> False.
   Proof.
     intros D1 D2 NE I1 I2. destruct hk as [[z fz] kd].
-    destruct (distinct_single c1 D1) as [f1 [n1 [e1 [cs1 ->]]]].
-    destruct (distinct_single c2 D2) as [f2 [n2 [e2 [cs2 ->]]]]. cbn [gfield hd] in NE.
-    destruct (region t h k f1 n1 e1 cs1 y z fz kd I1) as [[E1 F1]|[y1 [Hy1 R1]]];
-      destruct (region t h k f2 n2 e2 cs2 y z fz kd I2) as [[E2 F2]|[y2 [Hy2 R2]]].
+    destruct (distinct_single c1 D1) as [f1 [n1 [e1 [p1 [cs1 ->]]]]].
+    destruct (distinct_single c2 D2) as [f2 [n2 [e2 [p2 [cs2 ->]]]]]. cbn [gfield hd] in NE.
+    destruct (region t h k f1 n1 e1 p1 cs1 y z fz kd I1) as [[E1 F1]|[y1 [Hy1 R1]]];
+      destruct (region t h k f2 n2 e2 p2 cs2 y z fz kd I2) as [[E2 F2]|[y2 [Hy2 R2]]].
     - destruct F1 as [F1|[F1 K1]], F2 as [F2|[F2 K2]]; try congruence.
       + subst fz. rewrite K2 in I1. cbn [expected flat_map] in I1. rewrite app_nil_r in I1.
         apply in_app_or in I1. destruct I1 as [I1|I1].
@@ -231,8 +231,8 @@ Section Tree.
 
   Lemma expected_NoDup g : distinct_fields g -> forall x, NoDup (expected t h k g x).
   Proof.
-    induction g as [fs n e cs IH] using graph_ind'. intros D x. rewrite Forall_forall in IH.
-    apply (proj1 (distinct_fields_unfold fs n e cs)) in D. destruct D as [[f ->] [DF DA]].
+    induction g as [fs n e p cs IH] using graph_ind'. intros D x. rewrite Forall_forall in IH.
+    apply (proj1 (distinct_fields_unfold fs n e p cs)) in D. destruct D as [[f ->] [DF DA]].
     cbn [expected flat_map]. rewrite app_nil_r. apply NoDup_app_intro.
     - destruct e; [constructor; [intros []|constructor]|constructor].
     - destruct (t x f); [|constructor]. unfold own. rewrite <- app_assoc.
@@ -283,12 +283,12 @@ Section Tree.
   Qed.
 End Tree.
 (* ---------- the graphs of a legacy name ---------- *)
-Definition names_nodup (e : ename) : Prop := Forall (fun it : list fname * sep => NoDup (fst it)) e.
+Definition names_nodup (e : ename) : Prop := Forall (fun it : list fname * sep * bool => NoDup (fst (fst it))) e.
 
-Lemma gfield_link f n cs : gfield (link f n cs) = f.
+Lemma gfield_link f n p cs : gfield (link f n p cs) = f.
 Proof. unfold link. destruct (is_container f); reflexivity. Qed.
 
-Lemma link_distinct f n cs : NoDup (map gfield cs) -> all_distinct cs -> distinct_fields (link f n cs).
+Lemma link_distinct f n p cs : NoDup (map gfield cs) -> all_distinct cs -> distinct_fields (link f n p cs).
 Proof.
   intros DF DA. unfold link. destruct (is_container f).
   - apply distinct_fields_unfold. split; [eexists; reflexivity|]. split; [repeat constructor; intros []|].
@@ -300,16 +300,16 @@ Qed.
 Lemma legacy_distinct : forall e gs, names_nodup e -> legacy_to_graph e = Some gs ->
   NoDup (map gfield gs) /\ all_distinct gs.
 Proof.
-  induction e as [|[names s] rest IH]; intros gs ND L; [discriminate|].
+  induction e as [|[[names s] p] rest IH]; intros gs ND L; [discriminate|].
   inversion ND as [|? ? Nn Nr]; subst. cbn [fst] in Nn.
   destruct rest as [|it rest].
   - cbn [legacy_to_graph] in L. destruct (forallb _ names); [|discriminate]. inversion L; subst gs. clear L. split.
     + rewrite map_map. cbn [gfield hd]. rewrite map_id. exact Nn.
     + clear. induction names; cbn [map all_distinct]; [exact I|]. split; [|assumption].
       apply distinct_fields_unfold. split; [eexists; reflexivity|]. split; [constructor|exact I].
-  - change (legacy_to_graph ((names, s) :: it :: rest))
+  - change (legacy_to_graph ((names, s, p) :: it :: rest))
       with (match legacy_to_graph (it :: rest) with
-            | Some cs => Some (map (fun f => link f (sep_notify s) cs) names) | None => None end) in L.
+            | Some cs => Some (map (fun f => link f (sep_notify s) p cs) names) | None => None end) in L.
     destruct (legacy_to_graph (it :: rest)) as [cs|] eqn:E; [|discriminate]. inversion L; subst gs. clear L.
     destruct (IH cs Nr eq_refl) as [DF DA]. split.
     + rewrite map_map. erewrite map_ext; [rewrite map_id; exact Nn|]. intros f. apply gfield_link.
